@@ -5,6 +5,7 @@ import (
 	"go/constant"
 	"go/token"
 	"go/types"
+	"strings"
 
 	"golang.org/x/tools/go/ssa"
 
@@ -375,11 +376,109 @@ func checkC05(p *core.Program, r *core.Report) {
 	r.Counts["dial_chain_functions"] = nchain
 	r.Floor(R7, 3)
 
+	// R9: every reported service is considered, and what is dialled is a well-formed address
+	const R9 = "C05.R9 every-visible-peer-is-tried"
+	r.Rule(R9, "the loop over the reported mDNS entries has no early exit (a break on the first unpaired service drops the attempt for the paired peer behind it - map order is random, so both hubs can stall with zero connections); an IPv6 literal is bracketed exactly once on its way into the dial URL (net.JoinHostPort on an already bracketed host yields [[::1]]:port, which can never be dialled)")
+	if rep := p.Method("hub", "Hub", "ReportMdnsEntries"); rep == nil {
+		r.Unresolved(R9, "hub.Hub.ReportMdnsEntries")
+	} else {
+		nloop := 0
+		seenFn := map[*ssa.Function]bool{}
+		eachInstrWithCallees(p, rep, "hub", 1, func(in ssa.Instruction) { seenFn[in.Parent()] = true })
+		for fn := range seenFn {
+			for _, b := range fn.Blocks {
+				isHeader := false
+				for _, in := range b.Instrs {
+					if nx, ok := in.(*ssa.Next); ok && !nx.IsString {
+						if rg, ok := nx.Iter.(*ssa.Range); ok {
+							if mt, ok := rg.X.Type().Underlying().(*types.Map); ok && core.TypeIs(mt.Elem(), apiPath, "MdnsEntry") {
+								isHeader = true
+							}
+						}
+					}
+				}
+				if !isHeader || core.BlockIf(b) == nil {
+					continue
+				}
+				nloop++
+				key := "loop over the reported entries in " + p.FnName(fn)
+				if from, _ := core.LoopEarlyExit(b); from != nil {
+					r.Fail(R9, key, p.Pos(from.Instrs[len(from.Instrs)-1].Pos()), "the loop over the reported mDNS entries can be left early: services iterated after that point - possibly the paired peer - get no connection attempt, and nothing triggers another one")
+				} else {
+					r.OK(R9, key, p.Pos(b.Instrs[0].Pos()), "every entry is visited")
+				}
+			}
+		}
+		if nloop == 0 {
+			r.Fail(R9, "loop over the reported entries", p.Pos(rep.Pos()), "ReportMdnsEntries no longer iterates the reported entries")
+		}
+	}
+	{
+		ensureCallSites(p)
+		nj := 0
+		for _, fn := range a.fns {
+			fn := fn
+			core.EachInstr(fn, func(in ssa.Instruction) {
+				if !core.IsStaticCall(in, "net.JoinHostPort") {
+					return
+				}
+				nj++
+				bracketed := false
+				seen := map[ssa.Value]bool{}
+				var walk func(v ssa.Value, d int)
+				walk = func(v ssa.Value, d int) {
+					if v == nil || d > 10 || seen[v] || bracketed {
+						return
+					}
+					seen[v] = true
+					switch x := core.Canon(v).(type) {
+					case *ssa.BinOp:
+						if c, ok := strConst(x.X); ok && strings.Contains(c, "[") {
+							bracketed = true
+						}
+						walk(x.X, d+1)
+						walk(x.Y, d+1)
+					case *ssa.Phi:
+						for _, e := range x.Edges {
+							walk(e, d+1)
+						}
+					case *ssa.Parameter:
+						idx := -1
+						for i, q := range x.Parent().Params {
+							if q == x {
+								idx = i
+							}
+						}
+						for _, cs := range gCallSites[x.Parent()] {
+							if c := core.Common(cs); c != nil && idx >= 0 && idx < len(c.Args) {
+								walk(c.Args[idx], d+1)
+							}
+						}
+					}
+				}
+				walk(core.Common(in).Args[0], 0)
+				key := "host passed to net.JoinHostPort in " + p.FnName(fn)
+				if bracketed {
+					r.Fail(R9, key, p.Pos(in.Pos()), "the host handed to net.JoinHostPort can already be a bracketed IPv6 literal: it is bracketed a second time and the resulting URL cannot be dialled - peers that see each other over IPv6 only never connect")
+				} else {
+					r.OK(R9, key, p.Pos(in.Pos()), "not bracketed before")
+				}
+			})
+		}
+		if nj == 0 {
+			r.OK(R9, "dial URL host bracketing", "", "no net.JoinHostPort in package hub: the address is formatted as given")
+		}
+	}
+
 	// R8: the registry never loses the entry of a live connection and never keeps one of a dead transport
 	const R8 = "C05.R8 registry-and-liveness"
 	r.Rule(R8, "the hub deletes a registry entry only under an identity check made in the same critical section as the lookup (shared with C11.R3); a dead transport is noticed: read errors are reported, the read deadline is only extended by received traffic (shared with C13.R2/R6)")
 	importRules(p, r, "C11", map[string]string{"C11.R3 registry-identity-atomic": R8}, nil)
 	importRules(p, r, "C13", map[string]string{"C13.R2 error-told-or-not": R8, "C13.R6 liveness-deadline": R8}, nil)
+	// R10: the one connection carries every payload
+	const R10 = "C05.R10 connection-carries-every-payload"
+	r.Rule(R10, "the surviving connection carries SPINE payloads of any size: no receive-side message size limit (shared with C06.R7); a limit lets the handshake complete and then kills every connection at the first larger datagram, on every reconnect again")
+	importRules(p, r, "C06", map[string]string{"C06.R7 no-message-size-limit": R10}, nil)
 }
 
 // checkKeepRule discovers the double-connection decision function and
